@@ -20,7 +20,7 @@ def coll_text(defs):
     """human form of an insertion sequence"""
     out = []
     for d in defs:
-        out.append("%s:ins%02d/SYM%02d%s" % (EX.get(d["ex"], d["ex"]), d["ni"], d["nx"], "(%s)" % d["kind"] if d["kind"] != "spot" else ""))
+        out.append("%s:ins%02d/Sym%02d%s" % (EX.get(d["ex"], d["ex"]), d["ni"], d["nx"], "(%s)" % d["kind"] if d["kind"] != "spot" else ""))
     return "[" + ", ".join(out) + "]"
 
 
